@@ -180,6 +180,27 @@ def _print(it, fr, a, k):
     return None
 
 
+def _math_pred(name):
+    import math as _m
+
+    def fn(it, fr, a, k):
+        v = a[0]
+        if isinstance(v, bool) or isinstance(v, (int, float)):
+            return getattr(_m, name)(v)
+        if isinstance(v, SInt):
+            return name == "isfinite"
+        if isinstance(v, SBool):
+            return name == "isfinite"
+        it.raise_("TypeError", f"must be real number, not {type(v).__name__}")
+    return fn
+
+
+BUILTINS["inspect.isclass"] = Builtin("inspect.isclass", lambda it, fr, a, k: isinstance(it.norm_cls(a[0]) if not isinstance(a[0], (Obj, Opaque)) else a[0], (ClassInfo, ExtClass)))
+
+for _n in ("isfinite", "isnan", "isinf"):
+    BUILTINS[f"math.{_n}"] = Builtin(f"math.{_n}", _math_pred(_n))
+
+
 @builtin("hash")
 def _hash(it, fr, a, k):
     v = a[0]
@@ -683,7 +704,14 @@ TUPLE_METHODS = {"index": lambda it, v, a, k: _l_index(it, PyList(v), a, k),
 
 
 def _d_get(it, v, a, k):
-    return ops.dict_get(v, a[0], a[1] if len(a) > 1 else k.get("default"))
+    default = a[1] if len(a) > 1 else k.get("default")
+    if isinstance(a[0], SStr):
+        # a symbolic string key: one path per concrete string key of the dictionary it may equal, one for "none of them"
+        for kk, vv in ops.dict_items(v):
+            if isinstance(kk, str) and it.ctx.branch(a[0].t == z3.StringVal(kk)):
+                return vv
+        return default
+    return ops.dict_get(v, a[0], default)
 
 
 def _d_items(it, v, a, k):
